@@ -530,6 +530,9 @@ class AlignmentRotation(HomogFamilyAlignment, Rotation):
             self, optimal_rotation_matrix(source, target, allow_mirror=allow_mirror)
         )
         self.allow_mirror = allow_mirror
+        # Rotation.__init__ goes through the syncing setter, which replaced
+        # the target we were given with the aligned source - restore it.
+        self._target = target
 
     def set_rotation_matrix(self, value, skip_checks=False):
         r"""
